@@ -33,6 +33,14 @@ Open Scope N_scope.
 
 Record case := mkCase { k_g : gcfg; k_mgr : list (N * N); k_events : list ev }.
 
+(* count-prefixed list with a constant bound on the count (Wire.plist measures the remaining input
+   on every call, which is quadratic on the long traces of this property) *)
+Definition plist {A} (p : parser A) : parser (list A) :=
+  fun l => match l with
+           | [] => None
+           | n :: t => if 200000 <? n then None else prep (N.to_nat n) p t
+           end.
+
 Definition p_pair : parser (N * N) := let* a := pN in let* b := pN in pret (a, b).
 Definition p_entry : parser (N * list N) := let* p := pN in let* a := plist pN in pret (p, a).
 
@@ -258,19 +266,6 @@ Definition sel_events (es : list ev) : list ev := filter (fun e => negb (is_serv
 Definition started_ids (es : list ev) : list N :=
   flat_map (fun e => match started_by e with Some q => [q] | None => [] end) es.
 
-Definition quorum_of_ev (q : N) (e : ev) : option quorum :=
-  match e with
-  | ECmd q' (CPutRecord qr) _ _ => if q' =? q then Some qr else None
-  | ECmd q' (CStartProviding qr) _ _ => if q' =? q then Some qr else None
-  | EPutToPeers q' qr _ => if q' =? q then Some qr else None
-  | _ => None
-  end.
-Fixpoint find_quorum (q : N) (es : list ev) : option quorum :=
-  match es with
-  | [] => None
-  | e :: t => match quorum_of_ev q e with Some qr => Some qr | None => find_quorum q t end
-  end.
-
 Fixpoint find_track (q : N) (outs : list out) : option (list N) :=
   match outs with
   | [] => None
@@ -279,10 +274,6 @@ Fixpoint find_track (q : N) (outs : list out) : option (list N) :=
   end.
 
 Definition count_terms (q : N) (outs : list out) : nat := terminals q outs.
-
-(* a completion that means "the message was written to the peer" *)
-Definition sent_res (r : fres) : bool :=
-  match r with RSendOk | RAssume | RRead _ => true | _ => false end.
 
 (* walk the groups: subs = substream associations seen in earlier dumps, sent = (query, peer) pairs
    for which a PUT_VALUE / ADD_PROVIDER send completed, tracks = targets of the send phases *)
